@@ -130,21 +130,31 @@ def histories(ctx):
     from spacepackets.ecss.tm import PusTm
     from spacepackets.ccsds.spacepacket import PacketId, PacketType
     rng = ctx.rng
-    nh = ctx.q(300, 20000)
+    nh = ctx.q(1500, 60000)
+    from spacepackets.ccsds.spacepacket import SpacePacket, SpacePacketHeader, SequenceFlags
     for h in range(nh):
-        apids = rng.sample(range(1, 2047), 2)
-        ids = [PacketId(PacketType.TC, True, apids[0]).raw(), PacketId(PacketType.TM, True, apids[1]).raw()]
+        apids = rng.sample(range(0, 2048), 3)
+        # 1..3 registered packet IDs of mixed type / secondary-header flag (PUS packets and plain space packets)
+        kinds = rng.sample([("tc", PacketType.TC, True, apids[0]), ("tm", PacketType.TM, True, apids[1]),
+                            ("sp", rng.choice([PacketType.TC, PacketType.TM]), False, apids[2])], rng.randrange(1, 4))
+        ids = [PacketId(t, shf, ap).raw() for _, t, shf, ap in kinds]
         clean = rng.random() < 0.7
         stream = bytearray()
         npk = rng.randrange(1, ctx.q(8, 30))
         for _ in range(npk):
             n = rng.choice([0, 0, 1, 2, 5, 20, rng.randrange(0, 280)])
-            data = bytes(rng.choice([0x18, 0x08, apids[0] & 0xFF, rng.randrange(256)]) for _ in range(n))
-            if rng.random() < 0.5:
-                stream += PusTc(service=17, subservice=1, apid=apids[0], seq_count=rng.randrange(16384), app_data=data).pack()
+            data = bytes(rng.choice([0x18, 0x08, apids[0] & 0xFF, ids[0] >> 8, ids[0] & 0xFF, rng.randrange(256)]) for _ in range(n))
+            k, t, shf, ap = rng.choice(kinds)
+            if k == "tc":
+                stream += PusTc(service=17, subservice=1, apid=ap, seq_count=rng.randrange(16384), app_data=data).pack()
+            elif k == "tm":
+                stream += PusTm(service=17, subservice=2, apid=ap, seq_count=rng.randrange(16384),
+                                timestamp=bytes(rng.choice([0, 7])), source_data=data).pack()
             else:
-                stream += PusTm(service=17, subservice=2, apid=apids[1], seq_count=rng.randrange(16384),
-                                timestamp=bytes(7), source_data=data).pack()
+                ud = data or bytes([rng.randrange(256)])          # at least one octet: the 7-octet minimal packet
+                hdr = SpacePacketHeader(packet_type=t, apid=ap, seq_count=rng.randrange(16384), data_len=len(ud) - 1,
+                                        sec_header_flag=False, seq_flags=SequenceFlags(rng.randrange(4)))
+                stream += SpacePacket(hdr, None, ud).pack()
             if not clean and rng.random() < 0.5:
                 stream += bytes([0xFF]) * rng.randrange(1, 9)
         yield {"op": "init", "ids": ids, "clean": clean}
